@@ -12,6 +12,7 @@
 (* checks that it never rejects, and exports every history with the predicted directory for replay.         *)
 EXTENDS Integers, Sequences, FiniteSets, TLC, Json
 CONSTANTS Limits, Sizes, MaxBs, Overs, Schemes, Cleans, Modes, Freqs, Intervals, DTs,
+          RMs,           \* subset of {0, 1}: 1 = the active file disappears between destroy and an append-mode construct
           DayLen, DayOff, DailyOff, U, UOff, MaxOps, MaxRestarts,
           FixDaily,      \* TRUE: next daily point = next calendar HH:MM after the record (the proposed repair)
           Tolerated,     \* contract clauses not counted in this configuration (known deviations)
@@ -74,14 +75,14 @@ RotateFiles(ts) ==
 RECURSIVE SortX(_)
 SortX(S) == IF S = {} THEN <<>>
             ELSE LET m == CHOOSE a \in S : \A b \in S : a.x <= b.x IN <<m>> \o SortX(S \ {m})
-Recovered(mode, start) ==
+Recovered(D0, mode, start) ==
   IF cf.scheme = 2 \/ mode = 1 THEN <<>>
-  ELSE IF cf.scheme = 0 THEN SortX({nm \in DOMAIN dir : nm.d = 0 /\ nm.x >= 1})
-  ELSE SortX({nm \in DOMAIN dir : nm.d = DK(start)})
-Cleaned(mode, start) ==
-  IF cf.scheme = 2 \/ mode = 0 \/ cf.clean = 0 THEN dir
+  ELSE IF cf.scheme = 0 THEN SortX({nm \in DOMAIN D0 : nm.d = 0 /\ nm.x >= 1})
+  ELSE SortX({nm \in DOMAIN D0 : nm.d = DK(start)})
+Cleaned(D0, mode, start) ==
+  IF cf.scheme = 2 \/ mode = 0 \/ cf.clean = 0 THEN D0
   ELSE IF cf.scheme = 0 THEN Empty
-  ELSE [nm \in {k \in DOMAIN dir : k.d # DK(start)} |-> dir[nm]]
+  ELSE [nm \in {k \in DOMAIN D0 : k.d # DK(start)} |-> D0[nm]]
 
 Files(D, sz) == {[k |-> IF nm = Cur THEN 0 ELSE 1, d |-> nm.d, x |-> nm.x, ids |-> D[nm], sz |-> SumSz(D[nm], sz), bad |-> 0]
                  : nm \in DOMAIN D}
@@ -89,21 +90,22 @@ Pred(D) == {[d |-> nm.d, x |-> nm.x, ids |-> D[nm]] : nm \in DOMAIN D}
 ACfg == [limit |-> cf.limit, maxb |-> IF cf.maxb = 99 THEN A!Unlimited ELSE cf.maxb, over |-> cf.over,
          scheme |-> cf.scheme, freq |-> cf.freq, P |-> IF cf.freq = 2 THEN Period ELSE 0]
 
-DoConstruct(opname, mode, start) ==
-  LET D1 == Cleaned(mode, start)
+DoConstruct(opname, mode, start, rm) ==
+  LET D0 == IF rm = 1 THEN Remove(dir, Cur) ELSE dir      \* the active file disappeared while no sink was open
+      D1 == Cleaned(D0, mode, start)
       D2 == IF mode = 1 \/ Cur \notin DOMAIN D1 THEN Put(D1, Cur, <<>>) ELSE D1
-      ev == [op |-> opname, mode |-> mode, t |-> start, dk |-> DK(start),
+      ev == [op |-> opname, mode |-> mode, rm |-> rm, t |-> start, dk |-> DK(start),
              p1 |-> IF cf.freq = 0 THEN 0 ELSE InitialPoint(start), cand |-> <<>>, id |-> 0, sz |-> 0,
              files |-> Files(D2, szs), ubad |-> 0, err |-> 0]
   IN /\ dir' = D2
-     /\ created' = <<Cur>> \o Recovered(mode, start)
+     /\ created' = <<Cur>> \o Recovered(D0, mode, start)
      /\ nextRot' = IF cf.freq = 0 THEN 0 ELSE InitialPoint(start)
      /\ openTs' = start
      /\ fsize' = SumSz(D2[Cur], szs)
      /\ alive' = TRUE
      /\ now' = start
      /\ c' = A!Step(IF nops = 0 THEN A!CReset(ACfg) ELSE c, ev)
-     /\ hist' = Append(hist, [op |-> opname, mode |-> mode, t |-> start, id |-> 0, sz |-> 0, pred |-> Pred(D2)])
+     /\ hist' = Append(hist, [op |-> opname, mode |-> mode, rm |-> rm, t |-> start, id |-> 0, sz |-> 0, pred |-> Pred(D2)])
      /\ UNCHANGED <<cf, szs>>
 
 DoWrite(sz, ts) ==
@@ -114,7 +116,7 @@ DoWrite(sz, ts) ==
            ELSE IF cf.limit # 0 /\ fsize + sz > cf.limit THEN RotateFiles(ts)  \* _size_rotation
            ELSE Same
       D2 == Put(r.dir, Cur, Append(r.dir[Cur], id))
-      ev == [op |-> "W", mode |-> 0, t |-> ts, dk |-> DK(ts), p1 |-> 0,
+      ev == [op |-> "W", mode |-> 0, rm |-> 0, t |-> ts, dk |-> DK(ts), p1 |-> 0,
              cand |-> IF cf.freq = 0 THEN <<>> ELSE IF cf.freq = 1 THEN <<NextDaily(ts)>> ELSE <<ts + Period, UFloor(ts) + Period>>,
              id |-> id, sz |-> sz, files |-> Files(D2, sz2), ubad |-> 0, err |-> 0]
   IN /\ dir' = D2
@@ -125,7 +127,7 @@ DoWrite(sz, ts) ==
      /\ szs' = sz2
      /\ now' = ts
      /\ c' = A!Step(c, ev)
-     /\ hist' = Append(hist, [op |-> "W", mode |-> 0, t |-> ts, id |-> id, sz |-> sz, pred |-> Pred(D2)])
+     /\ hist' = Append(hist, [op |-> "W", mode |-> 0, rm |-> 0, t |-> ts, id |-> id, sz |-> sz, pred |-> Pred(D2)])
      /\ UNCHANGED <<cf, alive>>
 
 Cfgs == [limit : Limits, maxb : MaxBs, over : Overs, scheme : Schemes, clean : Cleans, freq : Freqs, N : Intervals]
@@ -142,11 +144,11 @@ Step == nops < MaxOps /\ nops' = nops + 1
 \* the Index scheme without time rotation never looks at time
 DTok(dt) == (cf.scheme = 0 /\ cf.freq = 0) => dt = 0
 AConstruct == /\ Step /\ nops = 0 /\ nrest' = nrest
-              /\ \E m \in Modes, dt \in DTs : DTok(dt) /\ DoConstruct("C", m, now + dt)
+              /\ \E m \in Modes, dt \in DTs : DTok(dt) /\ DoConstruct("C", m, now + dt, 0)
 AWrite == /\ Step /\ alive /\ nrest' = nrest
           /\ \E s \in Sizes, dt \in DTs : DTok(dt) /\ DoWrite(s, now + dt)
 ARestart == /\ Step /\ alive /\ nrest < MaxRestarts /\ nrest' = nrest + 1
-            /\ \E m \in Modes, dt \in DTs : DTok(dt) /\ DoConstruct("R", m, now + dt)
+            /\ \E m \in Modes, dt \in DTs, rm \in RMs : DTok(dt) /\ (rm = 1 => m = 0) /\ DoConstruct("R", m, now + dt, rm)
 Next == AConstruct \/ AWrite \/ ARestart
 Spec == Init /\ [][Next]_vars
 
@@ -162,6 +164,8 @@ NoRotation == ~(\E nm \in DOMAIN dir : nm # Cur)
 NoDeletion == c.fl > 1 \/ UNION {A!Range(dir[nm]) : nm \in DOMAIN dir} = 1..Len(szs)
 NoStop == ~(alive /\ cf.limit # 0 /\ fsize > cf.limit /\ Len(dir[Cur]) > 1)
 NoRecovery == Len(created) <= 1 \/ nrest = 0
+\* an append restart after the active file disappeared, with rotated files recovered and a later rotation
+NoRecoveryWithoutActive == ~(\E i \in 1..Len(hist) : hist[i].rm = 1 /\ Cardinality(hist[i].pred) > 1 /\ \E j \in (i + 1)..Len(hist) : Cardinality(hist[j].pred) > Cardinality(hist[i].pred))
 NoTimeSplit == ~(cf.limit = 0 /\ \E nm \in DOMAIN dir : nm # Cur)
 NoSizeSplitUnderTime == ~(cf.freq # 0 /\ cf.limit # 0 /\ alive /\ nextRot = InitialPoint(hist[1].t) /\ \E nm \in DOMAIN dir : nm # Cur)
 
